@@ -9,7 +9,8 @@ import copy
 
 from sa.model import AnalysisError, norm, walk_own, ancestors
 from sa import intexpr, x690
-from sa.util import if_chain, raises_in
+from sa.util import if_chain, raises_in, call_name
+from sa.cfg import reaching_defs, node_exprs
 
 
 def _subst(e, mapping):
@@ -130,16 +131,76 @@ def rule_decode_header(ctx):
         if isinstance(n, ast.Assign) and len(n.targets) == 1 and isinstance(n.targets[0], ast.Name):
             assigns.setdefault(n.targets[0].id, []).append(n.value)
     res = _resolver(ctx, f)
-    # class / form / number fields of the first identifier octet
-    for name, mask in (('tagClass', 0xC0), ('tagFormat', 0x20), ('tagId', 0x1F)):
-        cands = [v for v in assigns.get(name, []) if 'integerTag' in norm(v) and isinstance(v, ast.BinOp) and isinstance(v.op, ast.BitAnd)
+    # class / form fields: what the Tag(...) built for the item receives, traced back to the identifier octet
+    cfg = ctx.cfg(f)
+    rd = reaching_defs(cfg, f.params())
+    tagcalls = [(n, c) for n in cfg.stmt_nodes() if n.kind == 'stmt' for e in node_exprs(n) for c in ast.walk(e)
+                if isinstance(c, ast.Call) and norm(c.func) == 'tag.Tag' and any(k.arg == 'tagFormat' for k in c.keywords)]
+    if len(tagcalls) != 1:
+        raise AnalysisError('construction of the decoded tag not found in %s' % f.short)
+    tnode, tcall = tagcalls[0]
+
+    def first_octet_only(name, at):
+        """True if every definition of `name` reaching `at` is (a copy of) the first identifier octet."""
+        seen = set()
+        work = [(name, at)]
+        while work:
+            nm, node = work.pop()
+            defs = rd[node].get(nm, set())
+            if not defs:
+                return False, '`%s` has no definition' % nm
+            for d in defs:
+                if (nm, d) in seen:
+                    continue
+                seen.add((nm, d))
+                if d.kind != 'stmt' or not isinstance(d.ast, ast.Assign):
+                    return False, '`%s` is also bound by `%s`' % (nm, d.text()[:50])
+                rhs = d.ast.value
+                if isinstance(rhs, ast.Name):
+                    work.append((rhs.id, d))
+                elif isinstance(rhs, ast.Call) and call_name(rhs) in ('ord', 'oct2int') and norm(rhs.args[0]) == 'firstByte':
+                    continue
+                else:
+                    return False, '`%s` may hold `%s` (line %d), not the first identifier octet' % (nm, norm(rhs)[:40], d.ast.lineno)
+        return True, ''
+    for name, mask in (('tagClass', 0xC0), ('tagFormat', 0x20)):
+        kv = [k.value for k in tcall.keywords if k.arg == name]
+        if not kv:
+            raise AnalysisError('%s not passed to tag.Tag' % name)
+        v, at = kv[0], tnode
+        if isinstance(v, ast.Name):
+            defs = rd[tnode].get(v.id, set())
+            if len(defs) != 1 or list(defs)[0].kind != 'stmt' or not isinstance(list(defs)[0].ast, ast.Assign):
+                ctx.ob('W.dec', f, '%s = identifier octet & %#x' % (name, mask), False,
+                       '`%s` passed to tag.Tag has %d reaching definitions' % (v.id, len(defs)), node=tcall)
+                continue
+            at = list(defs)[0]
+            v = at.ast.value
+        if not (isinstance(v, ast.BinOp) and isinstance(v.op, ast.BitAnd)):
+            raise AnalysisError('%s extraction `%s` not recognised' % (name, norm(v)))
+        ops = [x for x in (v.left, v.right) if isinstance(x, ast.Name)]
+        if len(ops) != 1:
+            raise AnalysisError('%s extraction `%s` not recognised' % (name, norm(v)))
+        try:
+            table = [intexpr.ev(v, {ops[0].id: b}, res) for b in range(256)]
+        except intexpr.NotPure as x:
+            raise AnalysisError('%s extraction not a pure expression: %s' % (name, x))
+        ctx.ob('W.dec', f, '%s = identifier octet & %#x' % (name, mask), table == [b & mask for b in range(256)],
+               '`%s`' % norm(v), node=v)
+        okf, why = first_octet_only(ops[0].id, at)
+        ctx.ob('W.dec', f, '%s is taken from the FIRST identifier octet' % name, okf,
+               '%s: for a multi-octet identifier the %s bits come from a tag-number octet' % (why, name) if not okf else
+               '`%s` is the first identifier octet on every path' % ops[0].id, node=v)
+    for name, mask in (('tagId', 0x1F),):
+        cands = [v for v in assigns.get(name, []) if isinstance(v, ast.BinOp) and isinstance(v.op, ast.BitAnd)
                  and not any(isinstance(a, ast.AugAssign) for a in ancestors(v, f.node))]
-        cands = [v for v in cands if norm(v.left) == 'integerTag' or norm(v.right) == 'integerTag']
+        cands = [v for v in cands if isinstance(v.left, ast.Name) or isinstance(v.right, ast.Name)]
         if not cands:
             raise AnalysisError('%s extraction not found' % name)
         v = cands[0]
+        opn = [x for x in (v.left, v.right) if isinstance(x, ast.Name)][0].id
         try:
-            table = [intexpr.ev(v, {'integerTag': b}, res) for b in range(256)]
+            table = [intexpr.ev(v, {opn: b}, res) for b in range(256)]
         except intexpr.NotPure as x:
             raise AnalysisError('%s extraction not a pure expression: %s' % (name, x))
         ctx.ob('W.dec', f, '%s = identifier octet & %#x' % (name, mask), table == [b & mask for b in range(256)],
